@@ -27,7 +27,7 @@ C17_THEOREMS = ["C17_cache_ok_initially", "C17_run_prefix_preserves_inv", "C17_c
                 "C17_history_preserves_inv", "C17_cold_run", "C17_second_run_sound", "C17_second_run_profile",
                 "C17_old_protocol_refuted", "C17_old_protocol_refuted_by_crash", "C17_profiler_inputs_are_the_documented_flags"]
 C18_THEOREMS = ["C18_profile_sorted", "C18_profile_nodup", "C18_profile_members", "C18_profile_members_disjoint",
-                "C18_profile_allow_wins", "C18_profile_in_table", "C18_profile_perm_invariant", "C18_profile_decides",
+                "C18_profile_allow_wins", "C18_profile_in_table", "C18_profile_perm_invariant", "C18_profile_decides", "C18_flag_occurrences_accumulate", "C18_nameless_occurrence_is_neutral",
                 "C18_listed_spec", "C18_generated_tables_unambiguous", "C18_profile_on_generated_tables",
                 "C18_generated_actions", "C18_profile_decides_generated"]
 
@@ -920,6 +920,11 @@ def c18_flag_occurrences(rng, names):
             s += (rng.choice(SEPS) if j else rng.choice(["", "", " ", ","])) + nm
         s += rng.choice(["", "", ",", " ", ";"])
         occ.append(s)
+    # occurrences that name NOTHING (empty, blank, separators only - what `-b "$EXTRA"` gives with EXTRA unset): they add
+    # nothing and take nothing away, wherever they stand (before, between, behind the occurrences that name something)
+    if rng.random() < 0.4:
+        for _ in range(rng.randint(1, 2)):
+            occ.insert(rng.choice([0, len(occ), len(occ), rng.randint(0, len(occ))]), rng.choice(["", "", " ", ",", ";, ", "\t"]))
     return occ
 
 
